@@ -231,6 +231,8 @@ _ADD12 = {
     "C19": " Copies made with clone_from (directly and through Option / Vec) into builders that exist; ids that differ in any one of the 96 bits, in two bits at distances 1..64, or by swapped words are different under == and hashing, bits above 96 are ignored.",
     "C20": " Stale-instant histories whose first instant is the late one (a request answered / cancelled late, or an idle poll, then a request started earlier).",
 }
+_ADD12["C04"] = " Texts (passwords, names, realms) contain characters that string preparation, normalisation or case folding would change; near-miss credentials include what such a step would make of the text."
+_ADD12["C11"] = " Large raw attributes of unaligned length (257..16385 bytes) next to small ones, in both orders, in front of every sealing set."
 for _k, _t in _ADD12.items():
     PROPS[_k]["rule"] += _t
 for _k, _t in _ADD.items():
